@@ -867,6 +867,130 @@ impl Actor for NodeServer {
     }
 }
 
+#[cfg(feature = "slawlor_ractor_verif")]
+pub mod verif_hooks {
+    //! verification-only entry points to the private session election code
+    #![allow(missing_docs, missing_debug_implementations)]
+    use super::*;
+
+    #[derive(Clone, Copy, Debug, PartialEq, Eq, Hash)]
+    pub struct Candidate {
+        pub actor_id: ActorId,
+        pub is_server: bool,
+        /// 0 = legacy peer without a nonce
+        pub connection_id: u64,
+    }
+
+    /// `elect_sessions` exactly as the node server calls it
+    pub fn elect(this_node_name: &str, peer_name: &str, candidates: &[Candidate]) -> Vec<ActorId> {
+        elect_sessions(
+            this_node_name,
+            peer_name,
+            candidates
+                .iter()
+                .map(|c| SessionElectionCandidate {
+                    actor_id: c.actor_id,
+                    is_server: c.is_server,
+                    connection_id: NonZeroU64::new(c.connection_id),
+                })
+                .collect(),
+        )
+    }
+
+    #[derive(Clone, Copy, Debug, PartialEq, Eq, Hash)]
+    pub enum Check {
+        NoOtherConnection,
+        OtherConnectionContinues,
+        ThisConnectionContinues,
+        DuplicateConnection,
+    }
+
+    /// A `NodeServerState` that is not owned by a running node server
+    pub struct Table(NodeServerState);
+
+    impl Table {
+        pub fn new(this_node_name: &str) -> Self {
+            let (cell, _ports) = ractor::verif::detached_cell::<crate::net::Listener>(None)
+                .expect("detached listener cell");
+            Self(NodeServerState {
+                listener: cell.into(),
+                node_sessions: HashMap::new(),
+                node_id_counter: 0,
+                this_node_name: auth_protocol::NameMessage {
+                    flags: Some(auth_protocol::NodeFlags {
+                        version: PROTOCOL_VERSION,
+                    }),
+                    name: this_node_name.to_string(),
+                    connection_string: format!("{this_node_name}:0"),
+                    connection_id: 0,
+                },
+                subscriptions: HashMap::new(),
+                connection_ids: HashMap::new(),
+                authenticated_sessions: HashSet::new(),
+            })
+        }
+
+        /// what the `ConnectionOpened*` arms record for a freshly spawned session
+        pub fn open(&mut self, actor: ActorRef<NodeSessionMessage>, is_server: bool) {
+            let node_id = self.0.node_id_counter;
+            self.0.node_id_counter += 1;
+            self.0.node_sessions.insert(
+                actor.get_id(),
+                NodeServerSessionInformation::new(actor, is_server, node_id, "verif".to_string()),
+            );
+        }
+
+        /// what the supervision arms do when a session exits
+        pub fn close(&mut self, actor_id: ActorId) {
+            self.0.node_sessions.remove(&actor_id);
+            self.0.connection_ids.remove(&actor_id);
+            self.0.authenticated_sessions.remove(&actor_id);
+        }
+
+        pub fn register(&mut self, actor_id: ActorId, peer_name: &str, connection_id: u64) -> bool {
+            self.0.register_session(actor_id, name_message(peer_name, connection_id))
+        }
+
+        pub fn check(&self, peer_name: &str, connection_id: u64) -> Check {
+            match self.0.check_session(&name_message(peer_name, connection_id)) {
+                SessionCheckReply::NoOtherConnection => Check::NoOtherConnection,
+                SessionCheckReply::OtherConnectionContinues => Check::OtherConnectionContinues,
+                SessionCheckReply::ThisConnectionContinues => Check::ThisConnectionContinues,
+                SessionCheckReply::DuplicateConnection => Check::DuplicateConnection,
+            }
+        }
+
+        /// (candidate survives, losers to stop) or None when the session is unknown / nameless
+        pub fn commit(&mut self, actor_id: ActorId) -> Option<(bool, Vec<ActorId>)> {
+            self.0.commit_authenticated(actor_id).map(|e| {
+                (
+                    e.candidate_survives,
+                    e.losers.into_iter().map(|a| a.get_id()).collect(),
+                )
+            })
+        }
+
+        pub fn is_elected(&self, actor_id: ActorId) -> bool {
+            self.0.is_elected(actor_id)
+        }
+
+        pub fn is_authenticated(&self, actor_id: ActorId) -> bool {
+            self.0.authenticated_sessions.contains(&actor_id)
+        }
+    }
+
+    fn name_message(peer_name: &str, connection_id: u64) -> auth_protocol::NameMessage {
+        auth_protocol::NameMessage {
+            flags: Some(auth_protocol::NodeFlags {
+                version: PROTOCOL_VERSION,
+            }),
+            name: peer_name.to_string(),
+            connection_string: format!("{peer_name}:0"),
+            connection_id,
+        }
+    }
+}
+
 #[cfg(test)]
 mod tests {
     use super::*;
